@@ -77,6 +77,13 @@ func (s *c05Scratch) table(rng *Rng) []c05Entry {
 		{kind: "p", rw: true},
 		{kind: "b", src: p("does-not-exist"), tgt: "ghost", ro: true}, // filtered by FilterNotExist
 	}
+	// the corners of "every table": nothing configured at all, and a table whose every entry is filtered out
+	switch rng.Intn(20) {
+	case 0:
+		return nil
+	case 1:
+		return []c05Entry{pool[len(pool)-1]}
+	}
 	var out []c05Entry
 	seen := map[string]bool{}
 	for _, e := range pool {
@@ -153,7 +160,7 @@ func c05MountInfo(pid int) ([]string, error) {
 }
 
 func runC05(res *Result, d *Driver, tier string, seed uint64) {
-	res.Rule = "random mount tables (read-only/writable binds of directories and files, nested in other binds, tmpfs incl. on top of a read-only bind, proc ro/rw, deep targets, non-existent sources) run through BOTH implementations — runner/unshare with a pivoted root (raw in-child sequence) and a container environment (initFileSystem; default symlinks, masks incl. a directory and a file) — with the probe inside: (1) /proc/<pid>/mountinfo of the sandboxed process read from the host at the sync point vs the model's final namespace (Model.MountNS via driver: mount points in order, kind, per-mount read-only bit); (2) create/write/unlink/chmod attempts under every mount and in the root vs `writable`; (3) listing of / vs configured targets; old_root, the unbound host secret and the host path of the scratch directory must be unreachable; masked paths empty. non-trivial = table with a read-only or nested entry; distinct = (implementation, table)."
+	res.Rule = "random mount tables (read-only/writable binds of directories and files, nested in other binds, tmpfs incl. on top of a read-only bind, proc ro/rw, deep targets, non-existent sources, the empty table and a table whose only entry is filtered out) run through BOTH implementations — runner/unshare with a pivoted root (raw in-child sequence) and a container environment (initFileSystem; default symlinks, masks incl. a directory and a file) — with the probe inside: (1) /proc/<pid>/mountinfo of the sandboxed process read from the host at the sync point vs the model's final namespace (Model.MountNS via driver: mount points in order, kind, per-mount read-only bit); (2) create/write attempts under every mount and create/mkdir in the root vs `writable`; (3) listing of / vs configured targets; old_root, the unbound host secret and the host path of the scratch directory must be unreachable; masked paths empty. non-trivial = table with a read-only or nested entry; distinct = (implementation, table)."
 	rng := NewRng(seed, "C05", 1)
 	n := 60
 	if tier == "thorough" {
@@ -264,7 +271,7 @@ func runC05(res *Result, d *Driver, tier string, seed uint64) {
 				cmds = append(cmds, "writefile "+p+" overwritten")
 			}
 		}
-		cmds = append(cmds, "ls /", "ls /old_root", "readfile "+filepath.Join(sc.dir, "secret", "HOSTSECRET"), "ls "+sc.dir, "mkdir /newdir", "chmod / 777")
+		cmds = append(cmds, "ls /", "ls /old_root", "readfile "+filepath.Join(sc.dir, "secret", "HOSTSECRET"), "ls "+sc.dir, "mkdir /newdir")
 		if maskDir != "" {
 			cmds = append(cmds, "ls "+maskDir)
 		}
@@ -272,6 +279,18 @@ func runC05(res *Result, d *Driver, tier string, seed uint64) {
 			cmds = append(cmds, "readfile "+maskFile)
 		}
 		script := strings.Join(cmds, "; ") + "; exit 0"
+		// should the program ever run on the host's root (a broken pivot), what it plants there is taken away again
+		var absent []string
+		for _, p := range append([]string{"/newdir"}, probes...) {
+			if _, err := os.Lstat(p); err != nil {
+				absent = append(absent, p)
+			}
+		}
+		cleanHost := func() {
+			for _, p := range absent {
+				os.Remove(p)
+			}
+		}
 		var info []string
 		var infoErr error
 		sync := func(pid int) error {
@@ -297,6 +316,7 @@ func runC05(res *Result, d *Driver, tier string, seed uint64) {
 			r, out = env.runProbe(RunSpec{Script: script, SyncFunc: sync}, false)
 			env.Close()
 		}
+		cleanHost()
 		if r.Status != runner.StatusNormal {
 			res.Mismatch(Mismatch{Kind: "oracle", What: "sandboxed probe did not run normally", Input: key, Impl: fmt.Sprintf("%v %s %s", r.Status, r.Error, out), Oracle: "unknown"})
 			continue
@@ -372,7 +392,6 @@ func runC05(res *Result, d *Driver, tier string, seed uint64) {
 			{"readfile " + filepath.Join(sc.dir, "secret", "HOSTSECRET"), "an unbound host file is readable"},
 			{"ls " + sc.dir, "the host path of the scratch directory is reachable"},
 			{"mkdir /newdir", "the root accepts mkdir"},
-			{"chmod /", "the root accepts chmod"},
 		} {
 			if v := lines[c.cmd]; !strings.HasPrefix(v, "-") {
 				res.Mismatch(Mismatch{Kind: "oracle", What: c.what + " (C05_namespace: host detached, root read-only)", Input: key, Impl: c.cmd + " = " + v, Oracle: "violates"})
